@@ -1,7 +1,8 @@
 #!/usr/bin/env python3
 """Apply every seeded change (seeded/<id>/patch.diff) to a scratch copy of /repo's HEAD, run the check of its property with
---src pointing at the copy, and record whether the check raised the alarm.  The scratch copy lives under a fresh temp dir
-(outside /repo and /verif) and is removed at the end.  Usage: selftest/run_seeded.py [name-prefix ...] > seeded/RESULTS.txt"""
+--src pointing at the copy, and record whether the check raised the alarm.  The scratch copies live under a fresh temp dir
+(outside /repo and /verif), one per parallel lane, and are removed at the end.
+Usage: selftest/run_seeded.py [-j LANES] [name-prefix ...] > seeded/RESULTS.txt"""
 import glob
 import json
 import os
@@ -9,35 +10,67 @@ import shutil
 import subprocess
 import sys
 import tempfile
+import threading
 import time
 
 VERIF = os.path.dirname(os.path.dirname(os.path.abspath(__file__)))
-want = sys.argv[1:]
+args = sys.argv[1:]
+lanes = 3
+if args and args[0] == "-j":
+    lanes = int(args[1])
+    args = args[2:]
+want = args
 tmp = tempfile.mkdtemp(prefix="verif_seeded_")
-wt = os.path.join(tmp, "wt")
-subprocess.run(["git", "-C", "/repo", "worktree", "add", "-q", "--detach", wt, "HEAD"], check=True)
+todo = []
+for d in sorted(glob.glob(os.path.join(VERIF, "seeded", "*"))):
+    name = os.path.basename(d)
+    if os.path.isdir(d) and os.path.exists(os.path.join(d, "meta.json")) and (not want or any(name.startswith(w) for w in want)):
+        todo.append(d)
 rows = []
+lock = threading.Lock()
+subprocess.run([os.path.join(VERIF, "check"), "--setup"], cwd=VERIF, capture_output=True)      # build the overlay venv once, before the lanes start
+
+
+def lane(k):
+    wt = os.path.join(tmp, f"wt{k}")
+    subprocess.run(["git", "-C", "/repo", "worktree", "add", "-q", "--detach", wt, "HEAD"], check=True)
+    try:
+        while True:
+            with lock:
+                if not todo:
+                    return
+                d = todo.pop(0)
+            name = os.path.basename(d)
+            pid = json.load(open(os.path.join(d, "meta.json")))["property"]
+            subprocess.run(["git", "-C", wt, "checkout", "-q", "--", "."], check=True)
+            subprocess.run(["git", "-C", wt, "clean", "-fdq"], check=True)
+            ap = subprocess.run(["git", "-C", wt, "apply", os.path.join(d, "patch.diff")], capture_output=True, text=True)
+            if ap.returncode != 0:
+                row = (name, pid, "PATCH-DOES-NOT-APPLY", 0, "")
+            else:
+                t0 = time.time()
+                p = subprocess.run([os.path.join(VERIF, "check"), pid, "--src", os.path.join(wt, "src")], capture_output=True, text=True, cwd=VERIF)
+                out = p.stdout
+                viol = [l for l in out.splitlines() if l.startswith("VIOLATION")]
+                summ = next((l for l in out.splitlines() if l.startswith(pid + ":")), "")
+                row = (name, pid, {0: "MISSED", 1: "DETECTED", 2: "UNDECIDED", 3: "CHECKER-ERROR"}.get(p.returncode, str(p.returncode)), round(time.time() - t0),
+                       (viol[0][:160] if viol else "") + " | " + summ[:90])
+            with lock:
+                rows.append(row)
+                print(*row, flush=True)
+    finally:
+        subprocess.run(["git", "-C", "/repo", "worktree", "remove", "--force", wt])
+
+
 try:
-    for d in sorted(glob.glob(os.path.join(VERIF, "seeded", "*"))):
-        name = os.path.basename(d)
-        if not os.path.isdir(d) or (want and not any(name.startswith(w) for w in want)):
-            continue
-        meta = json.load(open(os.path.join(d, "meta.json")))
-        pid = meta["property"]
-        subprocess.run(["git", "-C", wt, "checkout", "-q", "--", "."], check=True)
-        ap = subprocess.run(["git", "-C", wt, "apply", os.path.join(d, "patch.diff")], capture_output=True, text=True)
-        if ap.returncode != 0:
-            rows.append((name, pid, "PATCH-DOES-NOT-APPLY", 0, ""))
-            continue
-        t0 = time.time()
-        p = subprocess.run([os.path.join(VERIF, "check"), pid, "--src", os.path.join(wt, "src")], capture_output=True, text=True, cwd=VERIF)
-        out = p.stdout
-        viol = [l for l in out.splitlines() if l.startswith("VIOLATION")]
-        summ = next((l for l in out.splitlines() if l.startswith(pid + ":")), "")
-        rows.append((name, pid, {0: "MISSED", 1: "DETECTED", 2: "UNDECIDED", 3: "CHECKER-ERROR"}.get(p.returncode, str(p.returncode)), round(time.time() - t0), (viol[0][:160] if viol else "") + " | " + summ[:90]))
-        print(*rows[-1], flush=True)
+    ts = [threading.Thread(target=lane, args=(k,)) for k in range(lanes)]
+    for t in ts:
+        t.start()
+    for t in ts:
+        t.join()
 finally:
-    subprocess.run(["git", "-C", "/repo", "worktree", "remove", "--force", wt])
     shutil.rmtree(tmp, ignore_errors=True)
+    subprocess.run(["git", "-C", "/repo", "worktree", "prune"])
 det = sum(1 for r in rows if r[2] == "DETECTED")
 print(f"# {det} of {len(rows)} seeded changes detected")
+sys.exit(0 if det == len(rows) else 1)
